@@ -55,12 +55,95 @@ def opMeshPointForces : Op K := fun n a =>
   let nx := n[0]!; let ny := n[1]!
   outMesh #[] nx ny (meshPointForces nx ny (at_ a 0) (at_ a 1) (mesh a 2 (ny - 1)))
 
+def outLoads (ny : Nat) (f : Nat → Load K) : Array K := Id.run do
+  let mut o : Array K := #[]
+  for j in [0:ny] do
+    o := pushV3 (pushV3 o (f j).f) (f j).m
+  return o
+
+def loadsView (a : Array K) (off : Nat) : Nat → Load K := fun j =>
+  ⟨⟨at_ a (off + 6*j), at_ a (off + 6*j+1), at_ a (off + 6*j+2)⟩,
+   ⟨at_ a (off + 6*j+3), at_ a (off + 6*j+4), at_ a (off + 6*j+5)⟩⟩
+
+def flag (n : Array Nat) (i : Nat) : Bool := n.getD i 0 != 0
+
+/-- ints: ny sym ; floats: mrho wwr A[ny-1] nodes[ny,3] → structural_mass, element_mass[ny-1] -/
+def opWeight : Op K := fun n a =>
+  let ny := n[0]!; let sym := flag n 1
+  let mrho := at_ a 0; let wwr := at_ a 1
+  let A := vec a 2
+  let nodes := pts a (2 + (ny - 1))
+  outVec #[structuralMass ny sym mrho wwr nodes A] (ny - 1) (elementMass mrho wwr nodes A)
+
+/-- ints: ny sym ; floats: nodes[ny,3] structural_mass element_mass[ny-1] → cg[3] -/
+def opStructuralCG : Op K := fun n a =>
+  let ny := n[0]!; let sym := flag n 1
+  pushV3 #[] (structuralCG ny sym (pts a 0) (at_ a (3*ny)) (vec a (3*ny+1)))
+
+/-- ints: ny ; floats: element_mass[ny-1] load_factor nodes[ny,3] → loads[ny,6] -/
+def opStructWeightLoads : Op K := fun n a =>
+  let ny := n[0]!
+  outLoads ny (structWeightLoads ny (pts a ny) (vec a 0) (at_ a (ny - 1)))
+
+/-- ints: ny sym ; floats: reserve nodes[ny,3] fuel_vols[ny-1] fuel_mass load_factor → loads[ny,6] -/
+def opFuelLoads : Op K := fun n a =>
+  let ny := n[0]!; let sym := flag n 1
+  let o := 1 + 3 * ny
+  outLoads ny (fuelLoads ny sym (pts a 1) (vec a o) (at_ a (o + ny - 1)) (at_ a 0) (at_ a (o + ny)))
+
+/-- ints: ny sym ; floats: reserve fuel_density fuelburn fuel_vols[ny-1] → fuel_vol_delta -/
+def opFuelVolDelta : Op K := fun n a =>
+  let ny := n[0]!; let sym := flag n 1
+  #[fuelVolDelta ny sym (vec a 3) (at_ a 2) (at_ a 0) (at_ a 1)]
+
+/-- ints: ny np ; floats: locs[np,3] masses[np] nodes[ny,3] load_factor → weightings[np,ny], loads[ny,6] -/
+def opPointMassLoads : Op K := fun n a =>
+  let ny := n[0]!; let np := n[1]!
+  let locs := pts a 0
+  let masses := vec a (3*np)
+  let nodes := pts a (4*np)
+  let lf := at_ a (4*np + 3*ny)
+  Id.run do
+    let mut o : Array K := #[]
+    for p in [0:np] do
+      for j in [0:ny] do o := o.push (nodalWeighting ny nodes (locs p) j)
+    return o ++ outLoads ny (pointMassLoads ny np nodes locs masses lf)
+
+/-- ints: ny np ; floats: locs[np,3] thrusts[np] nodes[ny,3] → weightings[np,ny], loads[ny,6] -/
+def opThrustLoads : Op K := fun n a =>
+  let ny := n[0]!; let np := n[1]!
+  let locs := pts a 0
+  let thr := vec a (3*np)
+  let nodes := pts a (4*np)
+  Id.run do
+    let mut o : Array K := #[]
+    for p in [0:np] do
+      for j in [0:ny] do o := o.push (nodalWeighting ny nodes (locs p) j)
+    return o ++ outLoads ny (thrustLoads ny np nodes locs thr)
+
+/-- ints: ny relief fuel pm ; floats: the enabled [ny,6] arrays in order loads, sw, fw, pml, tl -/
+def opTotalLoads : Op K := fun n a =>
+  let ny := n[0]!; let relief := flag n 1; let fuel := flag n 2; let pm := flag n 3
+  let o1 := 6 * ny
+  let o2 := if relief then o1 + 6 * ny else o1
+  let o3 := if fuel then o2 + 6 * ny else o2
+  outLoads ny (totalLoads relief fuel pm (loadsView a 0) (loadsView a o1) (loadsView a o2) (loadsView a o3)
+    (loadsView a (o3 + 6 * ny)))
+
 def ops : List (String × Op K) := [
   ("ComputeNodes", opComputeNodes),
   ("LoadTransfer", opLoadTransfer),
   ("TransformationMatrix", opTransformationMatrix),
   ("DisplacementTransfer", opDisplacementTransfer),
-  ("MeshPointForces", opMeshPointForces)
+  ("MeshPointForces", opMeshPointForces),
+  ("Weight", opWeight),
+  ("StructuralCG", opStructuralCG),
+  ("StructWeightLoads", opStructWeightLoads),
+  ("FuelLoads", opFuelLoads),
+  ("FuelVolDelta", opFuelVolDelta),
+  ("PointMassLoads", opPointMassLoads),
+  ("ThrustLoads", opThrustLoads),
+  ("TotalLoads", opTotalLoads)
 ]
 
 end OAS.Driver
